@@ -209,9 +209,9 @@ def sample(ctx, budget=1.0, hint=None, broken=None):
             return sum(curve[i].length() for i in range(k)) + curve[k].length(0, tt)
         return curve.length(0, t)
 
-    for it in range(int(ctx.n(40, 400) * budget)):
+    for it in range(int(ctx.n(60, 400) * budget)):
         scale = r.choice([1e-3, 1.0, 1.0, 1e2, 1e4, 1e6])
-        kind = r.choice(['line', 'quad', 'cubic', 'arc', 'path', 'path'])
+        kind = r.choice(['line', 'quad', 'cubic', 'arc', 'arc', 'path', 'path'])
         z0 = complex(r.uniform(-1, 1), r.uniform(-1, 1)) * scale
         if kind == 'path':
             segs, cur = [], z0
@@ -226,7 +226,7 @@ def sample(ctx, budget=1.0, hint=None, broken=None):
             if kind == 'arc' and r.random() < 0.5:
                 # circular and nearly circular arcs: constant speed holds only for exactly equal radii
                 r0 = r.uniform(0.3, 2) * scale
-                curve = P.Arc(curve.start, complex(r0, r0 * r.choice([1.0, 1 + 1e-9, 1 + 2e-6, 1 + 9e-6, 1 - 5e-6, 1 + 1e-4])),
+                curve = P.Arc(curve.start, complex(r0, r0 * r.choice([1.0, 1 + 1e-9, 1 - 1e-9, 1 + 2e-6, 1 - 2e-6, 1 + 9e-6, 1 - 9e-6, 1 - 5e-6, 1 + 1e-4, 1 - 1e-4])),
                               r.choice([0, 30, -45.5]), r.random() < 0.5, r.random() < 0.5, curve.end)
                 kind = 'arc~circle'
         desc = repr(curve).replace('\n', ' ')
